@@ -5,6 +5,7 @@ import (
 	"math/rand"
 
 	"github.com/jcmturner/gokrb5/v8/crypto"
+	"github.com/jcmturner/gokrb5/v8/crypto/etype"
 )
 
 func init() {
@@ -48,6 +49,78 @@ func cmdC07(args []string) error {
 		}
 		perCell = 6
 	}
+	// one cell: the checksum of data under (key, u) and the verification of its variants
+	cell := func(ct int32, e etype.EType, key, data []byte, u uint32) {
+		et := e.GetETypeID()
+		n := len(data)
+		var sum []byte
+		var serr error
+		p := catch(func() { sum, serr = e.GetChecksumHash(key, append([]byte{}, data...), u) })
+		line := map[string]interface{}{"ev": "sum", "ct": ct, "et": et, "key": hx(key), "u": be32(u), "data": hx(data),
+			"sum": hx(sum), "err": serr != nil, "panic": p, "missing": false}
+		// verification of variants of the library's own value; the trace spec checks that value first
+		type ver struct {
+			Class string `json:"class"`
+			Pos   int    `json:"pos"`
+			Ok    bool   `json:"ok"`
+		}
+		var vs []ver
+		offer := func(class string, pos int, k, d, c []byte, uu uint32) {
+			var ok bool
+			if p := catch(func() { ok = e.VerifyChecksum(k, d, c, uu) }); p != "" {
+				vs = append(vs, ver{class + "-panic", pos, true})
+				return
+			}
+			// only record what the model needs: every acceptance, and the exact-match outcome
+			if ok || class == "exact" {
+				vs = append(vs, ver{class, pos, ok})
+			}
+		}
+		total := 0
+		if p == "" && serr == nil {
+			offer("exact", 0, key, data, sum, u)
+			for k := 0; k < len(sum); k++ {
+				offer("truncated", k, key, data, sum[:k], u)
+				total++
+			}
+			for b := 0; b < 256; b += 51 {
+				offer("extended", b, key, data, append(append([]byte{}, sum...), byte(b)), u)
+				total++
+			}
+			for bit := 0; bit < 8*len(sum); bit++ {
+				m := append([]byte{}, sum...)
+				m[bit/8] ^= 0x80 >> uint(bit%8)
+				offer("flipped", bit, key, data, m, u)
+				total++
+			}
+			if n > 0 {
+				d2 := append([]byte{}, data...)
+				d2[r.Intn(n)] ^= 1 << uint(r.Intn(8))
+				offer("otherdata", 0, key, d2, sum, u)
+				offer("otherdata", 1, key, data[:n-1], sum, u)
+				total += 2
+			}
+			offer("otherdata", 2, key, append(append([]byte{}, data...), 0), sum, u)
+			offer("otherkey", 0, randKey(r, et), data, sum, u)
+			k2 := append([]byte{}, key...)
+			k2[r.Intn(len(k2))] ^= 0x80
+			offer("otherkey", 1, k2, data, sum, u)
+			total += 3
+			for _, u2 := range usageSet {
+				if u2 != u {
+					// for rc4 the RFC 4757 aliases share a message type: record which usage was accepted
+					offer("otherusage", int(u2&0xffff), key, data, sum, u2)
+					total++
+				}
+			}
+		}
+		if vs == nil {
+			vs = []ver{}
+		}
+		line["verify"] = vs
+		line["offered"] = total + 1
+		tw.emit(line)
+	}
 	for _, ct := range cksumTypes {
 		e, err := crypto.GetChksumEtype(ct)
 		if err != nil {
@@ -60,73 +133,42 @@ func cmdC07(args []string) error {
 				u := usageSet[(int(*seed)+li*perCell+j*5+int(ct&0xff))%len(usageSet)]
 				key := randKey(r, et)
 				data := rbytes(r, n)
-				var sum []byte
-				var serr error
-				p := catch(func() { sum, serr = e.GetChecksumHash(key, append([]byte{}, data...), u) })
-				line := map[string]interface{}{"ev": "sum", "ct": ct, "et": et, "key": hx(key), "u": be32(u), "data": hx(data),
-					"sum": hx(sum), "err": serr != nil, "panic": p, "missing": false}
-				// verification of variants of the library's own value; the trace spec checks that value first
-				type ver struct {
-					Class string `json:"class"`
-					Pos   int    `json:"pos"`
-					Ok    bool   `json:"ok"`
+				cell(ct, e, key, data, u)
+			}
+		}
+	}
+	// ---- the same key bytes, usage and data under every checksum type whose keys have that length, in both orders, the key
+	// held in one buffer that is overwritten for every round (a checksum is a function of its arguments: nothing the library
+	// remembers about an earlier call - for another type, or for other bytes in the same slice - may change a later one)
+	rounds := 4
+	if *tier == "thorough" {
+		rounds = 40
+	}
+	for _, grp := range [][]int32{{15, 19, -138}, {16, 20}, {12}} {
+		buf := make([]byte, 0, 32)
+		for round := 0; round < rounds; round++ {
+			order := append([]int32{}, grp...)
+			if round%2 == 1 {
+				for i, j := 0, len(order)-1; i < j; i, j = i+1, j-1 {
+					order[i], order[j] = order[j], order[i]
 				}
-				var vs []ver
-				offer := func(class string, pos int, k, d, c []byte, uu uint32) {
-					var ok bool
-					if p := catch(func() { ok = e.VerifyChecksum(k, d, c, uu) }); p != "" {
-						vs = append(vs, ver{class + "-panic", pos, true})
-						return
+			}
+			e0, err := crypto.GetChksumEtype(order[0])
+			if err != nil {
+				continue
+			}
+			k := randKey(r, e0.GetETypeID())
+			buf = append(buf[:0], k...)
+			u := usageSet[(int(*seed)+round/2)%len(usageSet)] // two rounds in a row share the usage: only the key bytes in the buffer change
+			data := rbytes(r, []int{0, 1, 64, 200}[round%4])
+			for rep := 0; rep < 2; rep++ {
+				for _, ct := range order {
+					e, err := crypto.GetChksumEtype(ct)
+					if err != nil {
+						continue
 					}
-					// only record what the model needs: every acceptance, and the exact-match outcome
-					if ok || class == "exact" {
-						vs = append(vs, ver{class, pos, ok})
-					}
+					cell(ct, e, buf, data, u)
 				}
-				total := 0
-				if p == "" && serr == nil {
-					offer("exact", 0, key, data, sum, u)
-					for k := 0; k < len(sum); k++ {
-						offer("truncated", k, key, data, sum[:k], u)
-						total++
-					}
-					for b := 0; b < 256; b += 51 {
-						offer("extended", b, key, data, append(append([]byte{}, sum...), byte(b)), u)
-						total++
-					}
-					for bit := 0; bit < 8*len(sum); bit++ {
-						m := append([]byte{}, sum...)
-						m[bit/8] ^= 0x80 >> uint(bit%8)
-						offer("flipped", bit, key, data, m, u)
-						total++
-					}
-					if n > 0 {
-						d2 := append([]byte{}, data...)
-						d2[r.Intn(n)] ^= 1 << uint(r.Intn(8))
-						offer("otherdata", 0, key, d2, sum, u)
-						offer("otherdata", 1, key, data[:n-1], sum, u)
-						total += 2
-					}
-					offer("otherdata", 2, key, append(append([]byte{}, data...), 0), sum, u)
-					offer("otherkey", 0, randKey(r, et), data, sum, u)
-					k2 := append([]byte{}, key...)
-					k2[r.Intn(len(k2))] ^= 0x80
-					offer("otherkey", 1, k2, data, sum, u)
-					total += 3
-					for _, u2 := range usageSet {
-						if u2 != u {
-							// for rc4 the RFC 4757 aliases share a message type: record which usage was accepted
-							offer("otherusage", int(u2&0xffff), key, data, sum, u2)
-							total++
-						}
-					}
-				}
-				if vs == nil {
-					vs = []ver{}
-				}
-				line["verify"] = vs
-				line["offered"] = total + 1
-				tw.emit(line)
 			}
 		}
 	}
